@@ -380,3 +380,319 @@ def features(n):
         else:
             f.add(k)
     return f
+
+
+# ---------------------------------------------------------------------------------------------------
+#  Reference matcher 1: Brzozowski derivatives over the AST, memoised into a DFA (anchor-free expressions)
+# ---------------------------------------------------------------------------------------------------
+class Deriv:
+    """Terms are interned: 0 = empty set, 1 = epsilon, others via table.
+    ('L', leafidx) ('S', a, b) ('A', (sorted ids)) ('R', a, mn, mx)"""
+
+    def __init__(self, ast, env):
+        self.env = env
+        self.tab = [('0',), ('1',)]
+        self.idx = {('0',): 0, ('1',): 1}
+        self.leafs = []
+        self.leafidx = {}
+        self.nullm = {0: False, 1: True}
+        self.dm = {}
+        self.sig = {}
+        self.sigid = {}
+        self.start = self.conv(ast)
+
+    # -- construction
+    def mk(self, t):
+        i = self.idx.get(t)
+        if i is None:
+            i = len(self.tab)
+            self.tab.append(t)
+            self.idx[t] = i
+        return i
+
+    def seq(self, a, b):
+        if a == 0 or b == 0: return 0
+        if a == 1: return b
+        if b == 1: return a
+        return self.mk(('S', a, b))
+
+    def alt(self, xs):
+        s = set()
+        for x in xs:
+            if x == 0:
+                continue
+            t = self.tab[x]
+            if t[0] == 'A':
+                s.update(t[1])
+            else:
+                s.add(x)
+        if not s: return 0
+        if len(s) == 1: return next(iter(s))
+        return self.mk(('A', tuple(sorted(s))))
+
+    def rep(self, a, mn, mx):
+        if mx is not None and mx == 0: return 1
+        if a == 0: return 1 if mn == 0 else 0
+        if a == 1: return 1
+        if mn == 1 and mx == 1: return a
+        return self.mk(('R', a, mn, mx))
+
+    def conv(self, n):
+        k = n[0]
+        if is_leaf(n):
+            key = repr(n)
+            i = self.leafidx.get(key)
+            if i is None:
+                i = len(self.leafs)
+                self.leafs.append(n)
+                self.leafidx[key] = i
+            return self.mk(('L', i))
+        if k == 'eps': return 1
+        if k == 'grp': return self.conv(n[1])
+        if k == 'seq':
+            r = 1
+            for c in reversed(n[1]):
+                r = self.seq(self.conv(c), r)
+            return r
+        if k == 'alt':
+            return self.alt([self.conv(c) for c in n[1]])
+        if k == 'rep':
+            return self.rep(self.conv(n[1]), n[2], n[3])
+        raise ValueError('derivative matcher does not handle %r' % (n[0],))
+
+    # -- semantics
+    def nullable(self, x):
+        r = self.nullm.get(x)
+        if r is not None:
+            return r
+        t = self.tab[x]
+        k = t[0]
+        if k == 'L': r = False
+        elif k == 'S': r = self.nullable(t[1]) and self.nullable(t[2])
+        elif k == 'A': r = any(self.nullable(y) for y in t[1])
+        else: r = t[2] == 0 or self.nullable(t[1])
+        self.nullm[x] = r
+        return r
+
+    def signature(self, cp):
+        s = self.sig.get(cp)
+        if s is None:
+            v = tuple(leaf_has(l, cp, self.env) for l in self.leafs)
+            s = self.sigid.setdefault(v, (len(self.sigid), v))
+            self.sig[cp] = s
+        return s
+
+    def d(self, x, s):
+        """derivative of term x by a character with signature s=(id, bools)"""
+        key = (x, s[0])
+        r = self.dm.get(key)
+        if r is not None:
+            return r
+        t = self.tab[x]
+        k = t[0]
+        if k in '01': r = 0
+        elif k == 'L': r = 1 if s[1][t[1]] else 0
+        elif k == 'S':
+            r = self.seq(self.d(t[1], s), t[2])
+            if self.nullable(t[1]):
+                r = self.alt([r, self.d(t[2], s)])
+        elif k == 'A':
+            r = self.alt([self.d(y, s) for y in t[1]])
+        else:
+            a, mn, mx = t[1], t[2], t[3]
+            r = self.seq(self.d(a, s), self.rep(a, max(mn - 1, 0), None if mx is None else mx - 1))
+        self.dm[key] = r
+        return r
+
+    def run(self, cps, st=None):
+        x = self.start if st is None else st
+        for cp in cps:
+            if x == 0:
+                return 0
+            x = self.d(x, self.signature(cp))
+        return x
+
+    def matches(self, cps):
+        return self.nullable(self.run(cps))
+
+    def all_upto(self, alphabet, maxlen):
+        """verdicts for every string over `alphabet` (code points) up to maxlen: dict tuple(cps)->bool"""
+        out = {}
+        sigs = [(cp, self.signature(cp)) for cp in alphabet]
+
+        def rec(prefix, x, depth):
+            out[prefix] = self.nullable(x)
+            if depth == maxlen:
+                return
+            for cp, s in sigs:
+                rec(prefix + (cp,), self.d(x, s) if x else 0, depth + 1)
+        rec((), self.start, 0)
+        return out
+
+
+# ---------------------------------------------------------------------------------------------------
+#  Reference matcher 2: Thompson construction + position-set simulation (no backtracking).
+#  Understands ^ and $ (with / without multi-line), anchored matching and leftmost search.
+#  quirk 'dollar-final-eol': without 'm', $ also holds before a final newline (not used for verdicts).
+# ---------------------------------------------------------------------------------------------------
+class NFA:
+    def __init__(self, ast, env, max_states=20000):
+        self.env = env
+        self.kind = []      # 'c' (leaf), 'e' (eps list), 'a' (assert bol/eol), 'acc'
+        self.arg = []
+        self.nxt = []
+        self.max_states = max_states
+        self.acc = self._new('acc', None, None)
+        self.start = self._build(ast, self.acc)
+        self._lm = {}
+
+    def _new(self, kind, arg, nxt):
+        if len(self.kind) >= self.max_states:
+            raise OverflowError('reference NFA too large')
+        self.kind.append(kind); self.arg.append(arg); self.nxt.append(nxt)
+        return len(self.kind) - 1
+
+    def _build(self, n, to):
+        k = n[0]
+        if is_leaf(n):
+            return self._new('c', n, to)
+        if k == 'eps':
+            return to
+        if k == 'grp':
+            return self._build(n[1], to)
+        if k in ('bol', 'eol'):
+            return self._new('a', k, to)
+        if k == 'seq':
+            for c in reversed(n[1]):
+                to = self._build(c, to)
+            return to
+        if k == 'alt':
+            return self._new('e', None, [self._build(c, to) for c in n[1]])
+        if k == 'rep':
+            a, mn, mx = n[1], n[2], n[3]
+            if mx is None:
+                loop = self._new('e', None, None)
+                body = self._build(a, loop)
+                self.nxt[loop] = [body, to]
+                cur = loop
+            else:
+                cur = to
+                for _ in range(mx - mn):
+                    body = self._build(a, cur)
+                    cur = self._new('e', None, [body, to])
+            for _ in range(mn):
+                cur = self._build(a, cur)
+            return cur
+        raise ValueError(n)
+
+    def _assert(self, kind, cps, pos, lo, hi):
+        ml = self.env.multiline
+        if kind == 'bol':
+            return pos == lo or (ml and pos > lo and cps[pos - 1] == 0x0A)
+        if pos == hi:
+            return True
+        if ml:
+            return cps[pos] == 0x0A
+        if 'dollar-final-eol' in self.env.quirks:
+            return pos + 1 == hi and cps[pos] == 0x0A
+        return False
+
+    def _closure(self, seeds, cps, pos, lo, hi):
+        """seeds: dict state -> smallest start position; returns the same for the eps/assert closure"""
+        out = {}
+        stack = list(seeds.items())
+        while stack:
+            s, st = stack.pop()
+            o = out.get(s)
+            if o is not None and o <= st:
+                continue
+            out[s] = st
+            k = self.kind[s]
+            if k == 'e':
+                for t in self.nxt[s]:
+                    stack.append((t, st))
+            elif k == 'a':
+                if self._assert(self.arg[s], cps, pos, lo, hi):
+                    stack.append((self.nxt[s], st))
+        return out
+
+    def _has(self, s, cp):
+        key = (s, cp)
+        r = self._lm.get(key)
+        if r is None:
+            r = leaf_has(self.arg[s], cp, self.env)
+            self._lm[key] = r
+        return r
+
+    def _step(self, cur, cp):
+        nx = {}
+        for s, st in cur.items():
+            if self.kind[s] == 'c' and self._has(s, cp):
+                t = self.nxt[s]
+                o = nx.get(t)
+                if o is None or st < o:
+                    nx[t] = st
+        return nx
+
+    def full(self, cps, lo=0, hi=None):
+        """anchored: cps[lo:hi] as a whole belongs to the language"""
+        hi = len(cps) if hi is None else hi
+        cur = self._closure({self.start: lo}, cps, lo, lo, hi)
+        for pos in range(lo, hi):
+            if not cur:
+                return False
+            cur = self._closure(self._step(cur, cps[pos]), cps, pos + 1, lo, hi)
+        return self.acc in cur
+
+    def search(self, cps, lo=0, hi=None):
+        """leftmost start of a match of some substring of cps[lo:hi], or None"""
+        hi = len(cps) if hi is None else hi
+        best = None
+        cur = {}
+        for pos in range(lo, hi + 1):
+            seeds = dict(cur)
+            if best is None:
+                seeds.setdefault(self.start, pos)
+            cur = self._closure(seeds, cps, pos, lo, hi)
+            if self.acc in cur:
+                st = cur[self.acc]
+                if best is None or st < best:
+                    best = st
+            if best is not None:
+                # only threads that started at or before `best` can still improve the answer
+                cur = {s: st for s, st in cur.items() if st < best}
+                if not cur:
+                    break
+            if pos < hi:
+                cur = self._step(cur, cps[pos])
+        return best
+
+    def ends_from(self, cps, p, lo=0, hi=None):
+        """set of end positions e such that cps[p:e] matches when the match is attempted at p"""
+        hi = len(cps) if hi is None else hi
+        ends = set()
+        cur = self._closure({self.start: p}, cps, p, lo, hi)
+        pos = p
+        while True:
+            if self.acc in cur:
+                ends.add(pos)
+            if pos >= hi or not cur:
+                break
+            cur = self._closure(self._step(cur, cps[pos]), cps, pos + 1, lo, hi)
+            pos += 1
+        return ends
+
+
+def has_anchor(ast):
+    return any(x[0] in ('bol', 'eol') for x in walk(ast))
+
+
+def nullable_ast(n):
+    k = n[0]
+    if is_leaf(n): return False
+    if k in ('eps', 'bol', 'eol'): return True
+    if k == 'grp': return nullable_ast(n[1])
+    if k == 'seq': return all(nullable_ast(c) for c in n[1])
+    if k == 'alt': return any(nullable_ast(c) for c in n[1])
+    if k == 'rep': return n[2] == 0 or nullable_ast(n[1])
+    raise ValueError(n)
